@@ -1007,6 +1007,17 @@ func stringToReflectValue(value string, kind reflect.Kind) (reflect.Value, error
 		if value != "true" && value != "false" {
 			return reflect.Value{}, fmt.Errorf("TypeError: %q is not the name of a bool key", value)
 		}
+	case reflect.Float32, reflect.Float64:
+		// Only the text JavaScript prints for the number names the key ("1000",
+		// "0.5"): ParseFloat also reads "1e3", "+1000", ".5", "0x1p-1", "inf".
+		bits := 64
+		if kind == reflect.Float32 {
+			bits = 32
+		}
+		// (NaN never equals a key: an entry stored under it could not be found again.)
+		if f, err := strconv.ParseFloat(value, bits); err != nil || math.IsNaN(f) || (Value{kind: valueNumber, value: f}).string() != value {
+			return reflect.Value{}, fmt.Errorf("TypeError: %q is not the name of a float key", value)
+		}
 	}
 
 	switch kind {
